@@ -29,10 +29,18 @@ func judgeTraces(c *core.Ctx, st *ValStats, runCfg map[string]obs.Cfg, runKeys m
 			return fmt.Errorf("%s: TLC rejects a recorded schedule at the level of Go semantics (scheduler/harness defect, not a verdict): run %s line %d: %s", what, b.Run, b.L, b.Why)
 		}
 	}
+	// the first rejected line of a run is the cause (later ones may be consequences);
+	// every reason given for that line is reported
+	firstL := map[string]int{}
+	for _, b := range st.Bad {
+		if l, ok := firstL[b.Run]; !ok || b.L < l {
+			firstL[b.Run] = b.L
+		}
+	}
 	seen := map[string]bool{}
 	for _, b := range st.Bad {
-		if seen[b.Run] {
-			continue // the first rejected line of a run is the cause
+		if b.L != firstL[b.Run] {
+			continue
 		}
 		seen[b.Run] = true
 		cfg, ok := runCfg[b.Run]
